@@ -319,7 +319,6 @@ fn analyze_call_arg_list_layout(ctx: &FormatContext, args: &LuaCallArgList, plan
     let arg_exprs: Vec<_> = args.get_args().collect();
     let has_explicit_multiline_arg = arg_exprs.iter().any(|arg| {
         is_multiline_block_like_arg(ctx, arg)
-            || matches!(arg, LuaExpr::TableExpr(table) if table.syntax().text().contains_char('\n'))
     });
     let first_line_prefix_width = arg_exprs
         .first()
@@ -328,7 +327,7 @@ fn analyze_call_arg_list_layout(ctx: &FormatContext, args: &LuaCallArgList, plan
     let first_arg_multiline_block = arg_exprs
         .first()
         .is_some_and(|arg| is_multiline_block_like_arg(ctx, arg));
-    let first_arg_multiline_table = matches!(arg_exprs.first(), Some(LuaExpr::TableExpr(table)) if table.syntax().text().contains_char('\n'));
+    let first_arg_multiline_table = matches!(arg_exprs.first(), Some(arg @ LuaExpr::TableExpr(_)) if is_multiline_block_like_arg(ctx, arg));
     let mut single_inline_block_arg_index = None;
     let mut inline_block_count = 0usize;
     for (index, arg) in arg_exprs.iter().enumerate().skip(1) {
@@ -608,8 +607,17 @@ fn is_multiline_block_like_arg(ctx: &FormatContext, expr: &LuaExpr) -> bool {
     if is_multiline_block_like_expr(expr) {
         return true;
     }
-    let LuaExpr::ClosureExpr(closure) = expr else {
-        return false;
+    let closure = match expr {
+        LuaExpr::ClosureExpr(closure) => closure,
+        // a table is broken when one of the functions inside it is
+        LuaExpr::TableExpr(table) => {
+            return table
+                .syntax()
+                .descendants()
+                .filter_map(emmylua_parser::LuaClosureExpr::cast)
+                .any(|closure| is_multiline_block_like_arg(ctx, &LuaExpr::ClosureExpr(closure)));
+        }
+        _ => return false,
     };
     if ctx.config.output.simple_lambda_single_line == SimpleLambdaSingleLine::Never {
         return true;
